@@ -178,6 +178,7 @@ def run(an: Analysis, rep):
     rep.run(c07.r073, an, shj, _enc)
     rep.run(c07.r07a, an, shj, _enc)
     rep.run(c07.r07b, an, shj, _defs)
+    rep.run(c07.r07r, an, shj)
     rep.stats.update(an.stats(interps))
     rep.assumptions += [
         "json / orjson themselves serialise floats, strings and containers identically on 3.7..3.12",
